@@ -33,7 +33,7 @@ TRACE = {'ops': None}
 def dataset(i, dseed):
   d = DIMS[i]
   sizes = [[13, 13], [9, 9, 9], [14, 13], [10, 11, 10]][i]
-  return gen.Data(dict(d=d, sizes=sizes, seed=dseed * 4 + i, logscale=0, cond=[1, 3, 10, 1][i], sep=1.0,
+  return gen.Data(dict(d=d, sizes=sizes, seed=dseed * 4 + i, logscale=0, cond=[1, 3, 10, 1][i], sep=[1.0, 3.0, 1.0, 3.0][i],
                        labels=['range', 'shifted', 'scrambled', 'range'][i], grid=False))
 
 
@@ -174,6 +174,10 @@ class Model:
     exp = (RuntimeError,) if 'SDML' in self.name else (ValueError,) if (self.name.startswith('MMC') and self.params.get('diagonal')) else ()
     if self.name in ('LMNN', 'NCA') and isinstance(self.params.get('init'), str) and self.params.get('init') == 'lda':
       exp = (ValueError,)        # lda needs n_components <= n_classes - 1 (documented)
+    if pd is not None and self.stats is not None:
+      self.stats.classes['fit-with-array-option'] += 1
+      if self.name.startswith('SCML') and self.params['basis'].shape[0] < pd:
+        self.stats.classes['fit-with-lowrank-basis'] += 1
     r = E.fit_call('C17/fit', self.name, self.est, args, self.data[i].desc, self.params, expect=exp, kw=kw)
     if isinstance(r, Exception):
       raise Discard('specified fit failure (%s)' % type(r).__name__)
@@ -285,7 +289,7 @@ class Model:
       arr = {'init': 'auto' if p == 'init' and self.name not in ('MMC', 'MMC_Supervised') else 'identity',
              'prior': 'identity', 'basis': 'triplet_diffs'}[p]
     elif p == 'basis':
-      arr = gen.basis_from_seed(d + 3, d, aseed)
+      arr = gen.basis_from_seed(max(1, d - 1) if aseed % 4 == 1 else d + 3, d, aseed)
       self.params['n_basis'] = None
       self.est.set_params(n_basis=None)
     elif p == 'prior' or self.name in ('MMC', 'MMC_Supervised'):
@@ -466,6 +470,13 @@ def make_machine(name, stats, known):
     @rule(i=st.integers(-1, 3), aseed=st.integers(0, 99))
     def set_array(self, i, aseed):
       self.go('arr', i, aseed)
+
+    @precondition(lambda self: name in ARRAY_PARAM)
+    @rule(i=st.integers(0, 3), aseed=st.integers(0, 99))
+    def set_array_then_fit(self, i, aseed):
+      # an array-valued option only matters in a fit on data of its dimensionality: issue the pair directly
+      self.go('arr', i, aseed)
+      self.go('fit', i, None)
 
     @rule(meth=st.sampled_from(['transform', 'pair_distance', 'pair_score', 'predict', 'decision_function', 'score']))
     def query(self, meth):
